@@ -883,4 +883,49 @@ theorem held_leaf_chain_held {t : Tree H} (hc : Closed t) (hsc : SibClosed t) {L
   rw [e]
   exact hsc c hc0 (known_above hc hsc hanc hheld)
 
+/-! ### lifting stage invariants to whole passes -/
+
+/-- `set_block_hash_root` touches only the block hash trees -/
+theorem stageBlockRoot_frame (E : Env H) (cfg : Cfg) (pick : List Nat → Nat) (cap : Cap H) (shnum : Nat) (nd : Node H) :
+    (stageBlockRoot E cfg pick cap shnum nd).2.shareTree = nd.shareTree ∧
+    (stageBlockRoot E cfg pick cap shnum nd).2.ctTree = nd.ctTree := by
+  unfold stageBlockRoot
+  dsimp only
+  repeat' split
+  all_goals exact ⟨rfl, rfl⟩
+
+/-- `_satisfy_data_block` touches only the block hash trees -/
+theorem stageData_frame (E : Env H) (cfg : Cfg) (pick : List Nat → Nat) (shnum segnum : Nat) (v : View H) (nd : Node H) :
+    (stageData E cfg pick shnum segnum v nd).2.shareTree = nd.shareTree ∧
+    (stageData E cfg pick shnum segnum v nd).2.ctTree = nd.ctTree := by
+  unfold stageData
+  dsimp only
+  repeat' split
+  all_goals exact ⟨rfl, rfl⟩
+
+/-- **one whole pass keeps the share hash tree closed and sibling-closed**, whatever the share answers -/
+theorem satisfy_keeps_share_tree_closed {E : Env H} {cfg : Cfg} (hstrict : StrictPresence E.ops cfg)
+    (pick : List Nat → Nat) (cap : Cap H) (nd : Node H) (shnum segnum : Nat) (v : View H)
+    (h : Closed nd.shareTree ∧ SibClosed nd.shareTree) :
+    Closed (satisfy E cfg pick cap nd shnum segnum v).2.shareTree ∧
+    SibClosed (satisfy E cfg pick cap nd shnum segnum v).2.shareTree := by
+  unfold satisfy
+  apply runStages_inv (P := fun nd => Closed nd.shareTree ∧ SibClosed nd.shareTree) _ _ nd h
+  intro f hf nd0 h0
+  unfold stages at hf
+  simp only [List.mem_cons, List.not_mem_nil, or_false] at hf
+  rcases hf with e | e | e | e | e | e | e | e <;> subst e
+  · dsimp only; split <;> exact h0
+  · unfold stageUEB
+    repeat' split
+    all_goals first | exact h0 | exact ⟨seed_keeps_closed h0.1 _, seed_keeps_sibClosed h0.2 _⟩
+  · unfold stageSegnum; repeat' split
+    all_goals exact h0
+  · exact ⟨stageShareTree_keeps_closed hstrict pick cap shnum v nd0 h0.1,
+      stageShareTree_keeps_sibClosed hstrict pick cap shnum v nd0 h0.2⟩
+  · rw [(stageBlockRoot_frame E cfg pick cap shnum nd0).1]; exact h0
+  · rw [(stageBlockHashes_frame E cfg pick shnum segnum v nd0).2.2]; exact h0
+  · rw [(stageCtHashes_frame E cfg pick segnum v nd0).2.2]; exact h0
+  · rw [(stageData_frame E cfg pick shnum segnum v nd0).1]; exact h0
+
 end Tahoe.Integrity
